@@ -30,10 +30,14 @@ int VPF(registry_count)(void)
 {
 	struct cds_list_head *pos;
 	int n = 0;
+	/* rcu_gp_lock first (same order as synchronize_rcu): while a grace period is
+	 * in flight the updater keeps reader nodes on private lists */
+	mutex_lock(&rcu_gp_lock);
 	mutex_lock(&rcu_registry_lock);
 	cds_list_for_each(pos, &registry)
 		n++;
 	mutex_unlock(&rcu_registry_lock);
+	mutex_unlock(&rcu_gp_lock);
 	return n;
 }
 
@@ -154,6 +158,7 @@ int VPF(arena_snapshot)(struct vp_bp_arena_info *out)
 	memset(out, 0, sizeof(*out));
 	sigfillset(&newmask);
 	pthread_sigmask(SIG_BLOCK, &newmask, &oldmask);
+	mutex_lock(&rcu_gp_lock);
 	mutex_lock(&rcu_registry_lock);
 	cds_list_for_each_entry(chunk, &registry_arena.chunk_list, node) {
 		size_t i, alloc = 0;
@@ -183,6 +188,7 @@ int VPF(arena_snapshot)(struct vp_bp_arena_info *out)
 	}
 	out->nchunks = nchunks;
 	mutex_unlock(&rcu_registry_lock);
+	mutex_unlock(&rcu_gp_lock);
 	pthread_sigmask(SIG_SETMASK, &oldmask, NULL);
 	return nchunks;
 }
